@@ -91,6 +91,20 @@ def run_matrix(case, ctx):
         exp = opts["N"][0] * (N - ne * I) @ (N - ne * I) + opts["Sz"][0] * (Sz - sz * I) @ (Sz - sz * I) + opts["S^2"][0] * (S2 - s2 * I) @ (S2 - s2 * I)
         ctx.check("penalty_matrix", refsim.dist(got, exp) < 1e-8, "combined penalty is not the sum of the requested penalties",
                   {"n_orbs": n_orbs, "up_then_down": utd, "options": opts})
+        # requests naming only some of the penalties, one after the other in the same process: each is the sum of what IT names
+        seq = []
+        for _k in range(3):
+            keys = pr.sample(["N", "Sz", "S^2"], pr.randint(1, 2))
+            sub = {k: [pr.choice([0.5, 1.5, 2.0]), {"N": pr.randint(0, M), "Sz": pr.choice([0, 0.5, -1]), "S^2": pr.choice([0, 0.75, 2])}[k]] for k in keys}
+            seq.append(sub)
+            got = fop_matrix(combined_penalty(n_orbs, dict(sub), up_then_down=utd), M)
+            exp = np.zeros_like(I)
+            for k, (w, v) in sub.items():
+                ref = {"N": N, "Sz": Sz, "S^2": S2}[k]
+                exp = exp + w * (ref - v * I) @ (ref - v * I)
+            ctx.check("penalty_matrix", refsim.dist(got, exp) < 1e-8,
+                      "combined penalty of a request naming only some penalties is not the sum of the penalties it names",
+                      {"n_orbs": n_orbs, "up_then_down": utd, "requests_so_far": seq})
     ctx.sample({"sub": "matrix", "n_orbs": n_orbs, "up_then_down": utd})
 
 
@@ -268,9 +282,17 @@ def run_pool(case, ctx):
                   lambda: {"molecule": label, "pool_index": k, "operator": str(sol.fermionic_operators[k])[:400], "comm_N": dn, "comm_Sz": ds})
         with warnings.catch_warnings():
             warnings.simplefilter("ignore")
-            ans = ag.ADAPTAnsatz(M, ne, spin, {"operators": [], "ferm_operators": [], "mapping": "JW", "up_then_down": False})
-            ans.build_circuit()
-            ans.add_operator(sol.pool_operators[k], sol.fermionic_operators[k])
+            if pr.random() < 0.5:
+                ans = ag.ADAPTAnsatz(M, ne, spin, {"operators": [], "ferm_operators": [], "mapping": "JW", "up_then_down": False})
+                ans.build_circuit()
+                ans.add_operator(sol.pool_operators[k], sol.fermionic_operators[k])
+                ctx.tab("adapt_construction", "grown with add_operator")
+            else:
+                # restart path: an ansatz re-created from a stored operator list
+                ans = ag.ADAPTAnsatz(M, ne, spin, {"operators": [sol.pool_operators[k]], "ferm_operators": [sol.fermionic_operators[k]],
+                                                   "mapping": "JW", "up_then_down": False})
+                ans.build_circuit()
+                ctx.tab("adapt_construction", "reloaded from operator list")
             th = [pr.uniform(-2.5, 2.5)]
             if pr.random() < 0.5:
                 ans.build_circuit(th)
